@@ -81,11 +81,19 @@ Definition run_C17 (i : val) : val :=
   | None => VErr 0
   end.
 Definition total_obs (o : val) : bool := val_eqb o (VZ 0) || val_eqb o (VZ 1).
-Definition agree_C17 (i o : val) : bool :=
+Definition agree_core (i o : val) : bool :=
   match run_C17 i with
   | VL [] => total_obs o
   | m => val_eqb m o
   end.
+(* the oracle columns were produced by the real bfe_util.ParseTime / ParseTimeOfDay: on plain texts they must equal
+   the model of these two functions (model/CondScan.v) *)
+Definition oracle_of (i : val) : val :=
+  match i with
+  | VL [VZ 2; _; _; orc] | VL [VZ 3; _; _; orc] | VL [VZ 4; _; orc] => orc
+  | _ => VL []
+  end.
+Definition agree_C17 (i o : val) : bool := agree_core i o && time_rows_ok (oracle_of i).
 
 (* ---- the property, from its text: never panics or hangs; unknown primitives, wrong argument counts or types,
    unresolved variables and invalid primitive arguments (IPs, regexps, hash ranges, times) are rejected *)
